@@ -73,10 +73,12 @@ func oracleIgnore(c *Ctx) error {
 				return fmt.Errorf("status lists %q, which is inside .goit", p)
 			}
 		}
-		// staged entries and deleted tracked files are reported from the index, whether or not the path became
-		// ignored after it was staged (the statement is about what add stages and what the walk lists)
+		// what is TRACKED is reported from the index (staged, deleted, modified), whether or not the path became
+		// ignored after it was staged: C13 demands every tracked file with differing bytes to be listed, and an
+		// ignore entry cannot un-track a path. The statement is about what add stages and what is listed as untracked;
+		// a modified path that is inside .goit would have to be tracked, which the add rule above excludes
 		for p, k := range rep.Unstaged {
-			if k == "modified" {
+			if k == "modified" && insideGoit(p) {
 				listed = append(listed, p)
 			}
 		}
